@@ -31,6 +31,25 @@ Theorem C01_framing_any_state :
 Proof. exact run_frames. Qed.
 Print Assumptions C01_framing_any_state.
 
+(* A frame that fails to decode, or is padded with blanks, affects its own result only: replacing
+   frame number |fs1| by ANY other frame leaves every other result of the run unchanged
+   (stated on the right-hand side of C01_framing). *)
+Theorem C01_bad_frame_local :
+  forall (D : Type) (decode : list byte -> D) n fs1 f g fs2 i, i <> length fs1 ->
+  nth_error (firstn n (map (fun x => Msg (decode x)) (fs1 ++ f :: fs2) ++ repeatn REof n)) i
+  = nth_error (firstn n (map (fun x => Msg (decode x)) (fs1 ++ g :: fs2) ++ repeatn REof n)) i.
+Proof. exact spec_local. Qed.
+Print Assumptions C01_bad_frame_local.
+
+(* No message is fabricated, dropped or delivered twice: the results are exactly the decoded
+   frames in order (the first n of them), then end-of-stream and nothing else. *)
+Theorem C01_no_fabrication :
+  forall (D : Type) (decode : list byte -> D) n fs,
+  firstn n (map (fun f => Msg (decode f)) fs ++ repeatn REof n)
+  = map (fun f => Msg (decode f)) (firstn n fs) ++ repeatn REof (n - length fs).
+Proof. exact spec_exact. Qed.
+Print Assumptions C01_no_fabrication.
+
 (* Non-vacuity: a three-frame stream cut inside frames, with Pending events, and a 4-byte growth
    step so that the buffer grows repeatedly, satisfies the hypotheses and evaluates as stated. *)
 Example C01_nonvacuous :
